@@ -143,10 +143,13 @@ _H_VERDICT = {
         bounds="n=m=2", oracle="six info fields and x,s,z,tau,kappa restored bit-for-bit"),
     "c01_unscale": dict(timeout=900, unit="DefaultVariables::unscale (+ DefaultProblemData::new to build the data object)", inst="GF(13) (exact field; all values)",
         bounds="n=m=2, arbitrary d,dinv,e,einv,c,tau,kappa in the field", oracle="x=(x*d)/tau, z=(z*e)/(c tau), s=(s*einv)/tau; kappa instead of tau iff infeasible (cross-multiplied)"),
-    "c01_scale_invariance_m1_a": dict(nofloat=True, stubs=True, timeout=2400, mem_gb=28, unit="DefaultResiduals::update + DefaultInfo::update (gemv, symv, dot, norm_scaled, get_normq/get_normb)", inst="f64: data/iterate small integers |v|<=3, scalings powers of two (all products exact)",
+    "c01_scale_invariance_fp_m1": dict(stubs=True, timeout=1800, mem_gb=24, unit="DefaultResiduals::update + DefaultInfo::update (gemv, symv, dot, norm_scaled, norm_inf_scaled, get_normq/get_normb), DefaultProblemData::new", inst="GF(13), canonical square root",
+        bounds="n=1, m=1; data, iterate and the scalings d, e: every field value (d, e non-zero); c = tau = 1", oracle="every termination quantity (costs, residuals, infeasibility residuals, gaps, ktratio) computed from the equilibrated presentation equals the one computed from the user's data with the unscaled iterate; cost formulas q'x+x'Px/2, -b'z-x'Px/2"),
+    "c01_scale_invariance_fp_m2": dict(stubs=True, tier="thorough", timeout=3600, mem_gb=28, unit="same", inst="same", bounds="n=1, m=2", oracle="same"),
+    "c01_scale_invariance_m1_a": dict(nofloat=True, stubs=True, tier="thorough", timeout=5400, mem_gb=28, unit="DefaultResiduals::update + DefaultInfo::update (gemv, symv, dot, norm_scaled, get_normq/get_normb)", inst="f64: data/iterate small integers |v|<=3, scalings powers of two (all products exact)",
         bounds="n=1, m=1; scalings d=2, e=1/2, c=4, tau=2 (concrete); data and iterate symbolic small integers", oracle="every termination quantity (costs, residuals, gaps, ktratio) is bit-identical when computed from the internally scaled presentation and from the user's data with the unscaled iterate; cost formulas q'x+x'Px/2, -b'z-x'Px/2"),
-    "c01_scale_invariance_m1_b": dict(nofloat=True, stubs=True, tier="thorough", timeout=3600, mem_gb=28, unit="same", inst="same", bounds="n=1, m=1; d=1/4, e=4, c=1/2, tau=1", oracle="same"),
-    "c01_scale_invariance_m1_c": dict(nofloat=True, stubs=True, tier="thorough", timeout=3600, mem_gb=28, unit="same", inst="same", bounds="n=1, m=1; d=4, e=2, c=1/4, tau=4", oracle="same"),
+    "c01_scale_invariance_m1_b": dict(nofloat=True, stubs=True, tier="thorough", timeout=5400, mem_gb=28, unit="same", inst="same", bounds="n=1, m=1; d=1/4, e=4, c=1/2, tau=1", oracle="same"),
+    "c01_scale_invariance_m1_c": dict(nofloat=True, stubs=True, tier="thorough", timeout=5400, mem_gb=28, unit="same", inst="same", bounds="n=1, m=1; d=4, e=2, c=1/4, tau=4", oracle="same"),
     "c01_scale_invariance_m2_a": dict(nofloat=True, stubs=True, tier="thorough", timeout=5400, mem_gb=32, unit="same", inst="same", bounds="n=1, m=2; d=2, e=(1/2, 2), c=4, tau=2", oracle="same"),
     "c01_post_process_fp": dict(timeout=900, unit="DefaultSolution::post_process -> DefaultVariables::unscale", inst="GF(13)",
         bounds="n=m=2, 7 non-infeasible statuses", oracle="returned x,z,s are the unscaled iterate; objectives copied"),
@@ -162,21 +165,21 @@ PROPS["C01"] = {
     "bounds_note": "verdict logic: every f64 bit pattern of every field and tolerance; unscale/post-process: n=m=2",
     "outside": "that the interior-point iteration reaches an iterate satisfying the test; rounding of residual norms; cone membership of the final iterate (see C07/C15); PSD cones; faer backend",
     "assumptions": ["check_termination is entered with status == Unsolved (loop invariant of Solver::solve, decided by the C04 loop harness)"],
-    "harnesses": _pick(["c01_verdict_solved", "c01_unscale", "c01_post_process_fp", "c03_solution_post_process", "c01_scale_invariance_m1_a", "c01_scale_invariance_m1_b", "c01_scale_invariance_m1_c", "c01_scale_invariance_m2_a"]),
+    "harnesses": _pick(["c01_verdict_solved", "c01_unscale", "c01_post_process_fp", "c03_solution_post_process", "c01_scale_invariance_fp_m1", "c01_scale_invariance_fp_m2", "c01_scale_invariance_m1_a", "c01_scale_invariance_m1_b", "c01_scale_invariance_m1_c", "c01_scale_invariance_m2_a"]),
 }
 PROPS["C02"] = {
     "feature": "c02",
     "bounds_note": "every f64 bit pattern; n=m=2 for the vectors",
     "outside": "that a certificate is found; numerical size of A'z; membership of z in K*",
     "assumptions": PROPS["C01"]["assumptions"],
-    "harnesses": _pick(["c02_verdict_infeasible", "c02_verdict_infeasible_dots", "c03_almost", "c03_solution_post_process", "c01_unscale", "c01_scale_invariance_m1_a"]),
+    "harnesses": _pick(["c02_verdict_infeasible", "c02_verdict_infeasible_dots", "c03_almost", "c03_solution_post_process", "c01_unscale", "c01_scale_invariance_fp_m1"]),
 }
 PROPS["C03"] = {
     "feature": "c03",
     "bounds_note": "every f64 bit pattern; n=m=2 for the vectors",
     "outside": "agreement of the reported residual figures with an independent recomputation from the returned point (floating-point norms); chordal decomposition",
     "assumptions": [],
-    "harnesses": _pick(["c03_almost", "c03_rollback", "c03_solution_post_process", "c01_scale_invariance_m1_a"]),
+    "harnesses": _pick(["c03_almost", "c03_rollback", "c03_solution_post_process", "c01_scale_invariance_fp_m1"]),
 }
 
 
@@ -293,7 +296,7 @@ def _c04():
     loop("c04_loop_sym_mi4", "max_iter<=4, symmetric cones", tier="thorough", )
     loop("c04_loop_asym_pd_mi3", "max_iter<=3, nonsymmetric, primal-dual scaling", tier="thorough")
     H.append(dict(name="verdict::c04_verdict_limits", **_H_VERDICT["c04_verdict_limits"]))
-    H.extend(_collapse(["k3", "k5"], "quick") + _collapse(["k0", "k1", "k2", "k4", "k6", "k7", "k8"], "thorough"))
+    # (c05::c04_collapse_k*: SupportedConeT::new_collapsed is not tractable, see DESIGN.md 6.2 item 15 - unregistered)
     H.append(dict(name="c05::c04_dims_inconsistent_panics", should_panic=True, no_cover_ok=True, unit="default::solver::_check_dimensions", inst="usize", bounds="all dimensions <= 3, 2 symbolic cones", timeout=900,
                   oracle="every inconsistent combination panics (the point after the check is unreachable)"))
     H.append(dict(name="c05::c04_dims_consistent_accepted", unit="default::solver::_check_dimensions", inst="usize", bounds="all dimensions <= 3", timeout=900, oracle="consistent dimensions never panic"))
@@ -428,7 +431,7 @@ PROPS["C10"] = {
     "assumptions": ["GF(13): order comparisons (max, clip) compare representatives; the asserted identity does not depend on them", "CompositeCone hook constructor; RandomState stub"],
     "harnesses": _mk("c10", [
         ("c10_exact_nn2_1sweep", dict(stubs=True, unit=_EQ_UNIT, inst="GF(13)", bounds="cones [NN2], 1 sweep", oracle=_EQ_OR, timeout=1800, mem_gb=20)),
-        ("c10_exact_nn2_2sweeps", dict(stubs=True, unit=_EQ_UNIT, inst="GF(13)", bounds="cones [NN2], 2 sweeps", oracle=_EQ_OR, timeout=2400, mem_gb=20)),
+        ("c10_exact_nn2_2sweeps", dict(stubs=True, tier="thorough", unit=_EQ_UNIT, inst="GF(13)", bounds="cones [NN2], 2 sweeps", oracle=_EQ_OR, timeout=7200, mem_gb=24)),
         ("c10_exact_nn1_soc2_1sweep", dict(stubs=True, unit=_EQ_UNIT, inst="GF(13)", bounds="cones [NN1,SOC2], 1 sweep (rectification)", oracle=_EQ_OR, timeout=2400, mem_gb=20)),
         ("c10_exact_zero1_soc3_2sweeps", dict(stubs=True, tier="thorough", unit=_EQ_UNIT, inst="GF(13)", bounds="cones [Zero1,SOC3], 2 sweeps", oracle=_EQ_OR, timeout=3600, mem_gb=28)),
         ("c10_disabled", dict(stubs=True, nofloat=True, unit="DefaultProblemData::equilibrate", inst="f64 every bit pattern", bounds="n=m=2", oracle="equilibrate_enable=false: P,q,A,b bit-unchanged, identity scaling", timeout=1200)),
@@ -444,15 +447,10 @@ PROPS["C10"] = {
 
 PROPS["C05"] = {
     "feature": "c05",
-    "bounds_note": "cone lists of 3-5 cones with enumerated kinds and symbolic dimensions; P: all 16 2x2 patterns and 6 3x3 patterns",
-    "outside": "every other equivalence of C05 (row/variable permutations, objective scaling, presolve/equilibration toggles, LDL backends, thread counts, concurrent solver instances, bit-for-bit repeatability) relates two end-to-end floating-point runs or concerns concurrency: not expressible as a bounded symbolic query over this code - NOT decided. Only the two normalisations that make equivalent inputs *identical internal problems* are decided here",
+    "bounds_note": "P: all 16 2x2 patterns and 6 3x3 patterns, symbolic values",
+    "outside": "cone collapsing (SupportedConeT::new_collapsed: splitting/merging/padding nonnegative cones) - its output Vec<enum> with data-dependent length and shrink_to_fit is not tractable for CBMC (two symbolic cones: out of memory; 81 calls with concrete kinds: symbolic execution alone > 37 min), harnesses kept unregistered in c05.rs; every other equivalence of C05 (row/variable permutations, objective scaling, presolve/equilibration toggles, LDL backends, thread counts, concurrent solver instances, bit-for-bit repeatability) relates two end-to-end floating-point runs or concerns concurrency: not expressible as a bounded symbolic query over this code - NOT decided. Only the two normalisations that make equivalent inputs *identical internal problems* are decided here",
     "assumptions": [],
     "harnesses": [
-        dict(name="c05::c05_nn_split_merge_nn0", unit="SupportedConeT::new_collapsed", inst="usize cone dimensions", bounds="[head, NN(a), NN(0), NN(b), tail] vs [head, NN(a+b), tail]; head/tail over {Zero(d),NN(d),SOC(1+d),Exp} (enumerated), a,b <= 3 and d in 1..2 symbolic", timeout=2400, mem_gb=20,
-             oracle="identical collapsed cone lists (=> identical internal problem); SOC(1) == nonnegative row"),
-        dict(name="c05::c05_nn_split_merge_zero0", tier="thorough", unit="same", inst="same", bounds="filler Zero(0)", timeout=2400, mem_gb=20, oracle="same"),
-        dict(name="c05::c05_nn_split_merge_soc0", tier="thorough", unit="same", inst="same", bounds="filler SOC(0)", timeout=2400, mem_gb=20, oracle="same"),
-    ] + _collapse(["k3"], "quick") + [
         dict(name="c16::c16_to_triu_2x2_all", unit="CscMatrix::to_triu / is_triu (DefaultProblemData::new converts a full P with to_triu iff !is_triu)", inst="i32", bounds="all 16 patterns of a 2x2 matrix, symbolic values", timeout=1500,
              oracle="to_triu(full) is the canonical upper triangle; a triu input is returned unchanged"),
         dict(name="c16::c16_to_triu_3x3_some", tier="thorough", unit="same", inst="i32", bounds="6 representative 3x3 patterns", timeout=1500, oracle="same"),
@@ -469,9 +467,11 @@ PROPS["C14"] = {
     "harnesses": _mk("c14", [
         ("c14_exp_grad_is_derivative_of_dual_barrier", dict(unit="ExponentialCone::barrier_dual / update_dual_grad_H", inst="Jet<GF(13)>", bounds="all z (z1,z3 != 0), symbolic direction index", oracle="d f*(z)/dz_j == grad[j]", timeout=2400, mem_gb=20)),
         ("c14_exp_hessian_is_derivative_of_grad", dict(unit="ExponentialCone::update_dual_grad_H", inst="Jet<GF(13)>", bounds="all z, symbolic j", oracle="d grad[i]/dz_j == H[i][j] for all i", timeout=2400, mem_gb=20)),
+        ("c14_exp_higher_correction_basis", dict(unit="ExponentialCone::higher_correction, DenseMatrixSym3::cholesky_3x3_explicit_{factor,solve}", inst="Jet<GF(13)>", bounds="all z; u = lambda e_k, v = mu e_j (symbolic indices and factors); nonzero leading minors of H", oracle="eta == -1/2 (d/dt H(z+tv)) u with H u = ds", timeout=2400, mem_gb=24)),
+        ("c14_pow_higher_correction_basis", dict(tier="thorough", unit="PowerCone::higher_correction", inst="Jet<GF(13)>", bounds="all z, alpha; u = lambda e_k, v = mu e_j", oracle="same", timeout=3600, mem_gb=24)),
         ("c14_exp_higher_correction_is_third_derivative_p11", dict(tier="thorough", unit="same", inst="Jet<GF(11)>", bounds="same", oracle="same", timeout=2400, mem_gb=24)),
         ("c14_pow_higher_correction_is_third_derivative_p5", dict(tier="thorough", unit="same", inst="Jet<GF(5)>", bounds="same", oracle="same", timeout=2400, mem_gb=24)),
-        ("c14_exp_higher_correction_is_third_derivative_p7", dict(unit="ExponentialCone::higher_correction, DenseMatrixSym3::cholesky_3x3_explicit_{factor,solve}", inst="Jet<GF(7)>", bounds="all z, u, v with nonzero leading minors of H", oracle="eta == -1/2 (d/dt H(z+tv)) u with H u = ds", timeout=2400, mem_gb=24)),
+        ("c14_exp_higher_correction_is_third_derivative_p7", dict(tier="thorough", unit="ExponentialCone::higher_correction, DenseMatrixSym3::cholesky_3x3_explicit_{factor,solve}", inst="Jet<GF(7)>", bounds="all z, u, v with nonzero leading minors of H", oracle="eta == -1/2 (d/dt H(z+tv)) u with H u = ds", timeout=2400, mem_gb=24)),
         ("c14_exp_higher_correction_is_third_derivative", dict(tier="thorough", unit="same", inst="Jet<GF(13)>", bounds="same", oracle="same", timeout=7200, mem_gb=28)),
         ("c14_pow_grad_is_derivative_of_dual_barrier", dict(unit="PowerCone::barrier_dual / update_dual_grad_H", inst="Jet<GF(13)>", bounds="all z != 0, all alpha", oracle="d f*(z)/dz_j == grad[j]", timeout=2400, mem_gb=20)),
         ("c14_pow_hessian_is_derivative_of_grad", dict(unit="PowerCone::update_dual_grad_H", inst="Jet<GF(13)>", bounds="all z, alpha, j", oracle="d grad[i]/dz_j == H[i][j]", timeout=2400, mem_gb=20)),
